@@ -1,5 +1,5 @@
 SPECIFICATION Spec
-INVARIANT TypeOK Laws
+INVARIANT TypeOK Laws FreshIsModel
 CHECK_DEADLOCK FALSE
-CONSTANT MaxDepth = 6
+CONSTANT MaxDepth = 5
 CONSTRAINT Bounded
